@@ -105,23 +105,36 @@ theorem domB_iff {S : Schema} {x : DNode} : domB S x = true ↔ Dom S x := by
 
 theorem goodN_dom {S : Schema} {x : DNode} (h : goodN S x = true) : Dom S x := by
   cases x <;> simp only [goodN, Bool.and_eq_true] at h
-  · exact domB_iff.mp h.1
+  · exact domB_iff.mp h.1.1
   · exact domB_iff.mp h
 
 theorem goodN_kids {S : Schema} {x : DNode} (h : goodN S x = true) : goodL S x.kids = true := by
   cases x <;> simp only [goodN, Bool.and_eq_true] at h
-  · exact h.2
+  · exact h.1.2
   · simp [DNode.kids, goodL]
 
-theorem goodN_iff {S : Schema} {x : DNode} : goodN S x = true ↔ Dom S x ∧ goodL S x.kids = true := by
-  constructor
-  · exact fun h => ⟨goodN_dom h, goodN_kids h⟩
-  · intro ⟨h1, h2⟩
-    cases x
-    · simp only [goodN, Bool.and_eq_true]
-      exact ⟨domB_iff.mpr h1, h2⟩
-    · simp only [goodN]
-      exact domB_iff.mpr h1
+theorem goodT_nil (S : Schema) : goodT S [] = true := by simp [goodT, goodL, keysLead, noKeys]
+
+theorem goodT_goodL {S : Schema} {l : List DNode} (h : goodT S l = true) : goodL S l = true := by
+  simp only [goodT, Bool.and_eq_true] at h
+  exact h.1
+
+theorem goodT_lead {S : Schema} {l : List DNode} (h : goodT S l = true) : keysLead S l = true := by
+  simp only [goodT, Bool.and_eq_true] at h
+  exact h.2
+
+theorem goodN_iff {S : Schema} {x : DNode} : goodN S x = true ↔ Dom S x ∧ goodT S x.kids = true := by
+  cases x with
+  | inner s f m ks =>
+    simp only [goodN, goodT, Bool.and_eq_true, DNode.kids, domB_iff]
+    exact ⟨fun ⟨⟨a, b⟩, c⟩ => ⟨a, b, c⟩, fun ⟨a, b, c⟩ => ⟨⟨a, b⟩, c⟩⟩
+  | term s f m v =>
+    simp only [goodN, DNode.kids, goodT_nil, and_true, domB_iff]
+
+theorem goodN_kidsT {S : Schema} {x : DNode} (h : goodN S x = true) : goodT S x.kids = true := (goodN_iff.mp h).2
+
+theorem keysLead_iff {S : Schema} {l : List DNode} : keysLead S l = true ↔ KL.Lead (fun x => S.isKey x.sid) l := by
+  simp [keysLead, KL.Lead, noKeys]
 
 theorem goodL_iff {S : Schema} (K : KeyOrder S) {l : List DNode} :
     goodL S l = true ↔ (ordOf S K).Sorted l ∧ ∀ x ∈ l, goodN S x = true := by
@@ -207,5 +220,46 @@ theorem good_set {S : Schema} (K : KeyOrder S) {l : List DNode} (hg : goodL S l 
     · exact hx'
   · intro q hq
     exact (ordOf S K).find?_set (goodL_allDom K hg) (goodL_sorted K hg) hx hxd' hsame hq
+
+/-! ### the same for good sibling lists (`goodT`: sorted and keys first); the keys stay what they are -/
+
+theorem nlt_false_of_sid_lt {S : Schema} {n k : DNode} (h : k.sid < n.sid) : nlt S n k = false := by
+  have h1 : ¬ n.sid < k.sid := by omega
+  have h2 : (n.sid == k.sid) = false := beq_eq_false_iff_ne.mpr (by omega)
+  simp [nlt, h1, h2]
+
+theorem goodT_insertNode {S : Schema} (K : KeyOrder S) {l : List DNode} (hg : goodT S l = true) {n : DNode}
+    (hn : goodN S n = true) (hf : look S l n = none) (hnk : S.isKey n.sid = false)
+    (hkb : ∀ k ∈ keysOf S l, k.sid < n.sid) :
+    goodT S (insertNode S l n) = true ∧ keysOf S (insertNode S l n) = keysOf S l ∧
+      ∀ q, Dom S q → look S (insertNode S l n) q = if matchP S q n then some n else look S l q := by
+  obtain ⟨h1, h2⟩ := good_insertNode K (goodT_goodL hg) hn hf
+  have := KL.takeWhile_insBefore (p := fun x : DNode => S.isKey x.sid) (q := nlt S n) (n := n) (l := l) hnk
+    (fun x hx => nlt_false_of_sid_lt (hkb x hx))
+  rw [← insertNode_eq] at this
+  refine ⟨?_, this.1, h2⟩
+  simp only [goodT, Bool.and_eq_true]
+  exact ⟨h1, keysLead_iff.mpr (this.2 (keysLead_iff.mp (goodT_lead hg)))⟩
+
+theorem goodT_eraseIdx {S : Schema} (K : KeyOrder S) {l : List DNode} (hg : goodT S l = true) {i : Nat} {x : DNode}
+    (hx : l[i]? = some x) (hxk : S.isKey x.sid = false) :
+    goodT S (l.eraseIdx i) = true ∧ keysOf S (l.eraseIdx i) = keysOf S l ∧
+      ∀ q, Dom S q → look S (l.eraseIdx i) q = if matchP S q x then none else look S l q := by
+  obtain ⟨h1, h2⟩ := good_eraseIdx K (goodT_goodL hg) hx
+  have := KL.takeWhile_eraseIdx (p := fun x : DNode => S.isKey x.sid) (keysLead_iff.mp (goodT_lead hg)) hx hxk
+  refine ⟨?_, this.1, h2⟩
+  simp only [goodT, Bool.and_eq_true]
+  exact ⟨h1, keysLead_iff.mpr this.2⟩
+
+theorem goodT_set {S : Schema} (K : KeyOrder S) {l : List DNode} (hg : goodT S l = true) {i : Nat} {x x' : DNode}
+    (hx : l[i]? = some x) (hx' : goodN S x' = true) (hsame : matchP S x x' = true) (hxk : S.isKey x.sid = false) :
+    goodT S (l.set i x') = true ∧ keysOf S (l.set i x') = keysOf S l ∧
+      ∀ q, Dom S q → look S (l.set i x') q = if matchP S q x then some x' else look S l q := by
+  obtain ⟨h1, h2⟩ := good_set K (goodT_goodL hg) hx hx' hsame
+  have hs : x'.sid = x.sid := matchP_sid hsame
+  have := KL.takeWhile_set (p := fun x : DNode => S.isKey x.sid) (y' := x') hx hxk (by simpa [hs] using hxk)
+  refine ⟨?_, this.1, h2⟩
+  simp only [goodT, Bool.and_eq_true]
+  exact ⟨h1, keysLead_iff.mpr (this.2 (keysLead_iff.mp (goodT_lead hg)))⟩
 
 end LyModel.Diff
